@@ -545,7 +545,17 @@ struct PtrSys
           src = member[before.tgt[o.b]];
           srctgt = before.mem[before.tgt[o.b]];
         }
-        if (src && srctgt >= 0 && src->ptr != nullptr) {
+        // ... and a move ASSIGNMENT may equally well be a swap: the source then holds what the destination held
+        // (nothing is released by the step; the counts must say exactly that).  Also consistent, also cut here.
+        const int dsttgt = o.kind == AS_MOVE && o.a != o.b ? before.tgt[o.a] : -1;
+        if (src && dsttgt >= 0 && dsttgt != srctgt && src->ptr == raw[dsttgt] && hb[o.a]->ptr == (srctgt >= 0 ? raw[srctgt] : nullptr)) {
+          model = before;
+          model.tgt[o.a] = (signed char)srctgt;
+          model.tgt[o.b] = (signed char)dsttgt;
+          died[0] = died[1] = false;
+          settle(model, died);
+          ctx.diverged = true;
+        } else if (src && srctgt >= 0 && src->ptr != nullptr) {
           if (src->ptr != raw[srctgt]) {
             ctx.viol(o.cls + "|handle points at something it was never given", "after the move the source handle is neither null nor its old object");
             return;
